@@ -33,6 +33,7 @@ type Opts struct {
 	NoDirFilter bool
 	ForceTime   bool // always include the time label (per-day comparisons)
 	AllAttrs    bool // always all four attributes
+	WideRange   bool // mostly ranges that span most of the data
 }
 
 var aliases = map[string][]string{
@@ -142,6 +143,10 @@ func Draw(t *rapid.T, db *model.DB, o Opts) *Query {
 	bounds := Boundaries(db, sel)
 	i := rapid.IntRange(0, len(bounds)-1).Draw(t, "q.first")
 	j := rapid.IntRange(i, len(bounds)-1).Draw(t, "q.last")
+	if o.WideRange && rapid.IntRange(0, 3).Draw(t, "q.wide") > 0 {
+		i = rapid.IntRange(0, len(bounds)/5).Draw(t, "q.firstw")
+		j = rapid.IntRange(len(bounds)-1-len(bounds)/5, len(bounds)-1).Draw(t, "q.lastw")
+	}
 	first, last := bounds[i], bounds[j]
 
 	q.Spec = model.QuerySpec{Ifaces: sel, First: first, Last: last, Attrs: attrs, Time: attrSet["time"], Cond: cond, DirFilter: dirF}
